@@ -328,6 +328,7 @@ func runC12(c *sim.Ctx) *sim.Violation {
 			c.Count("probe.set-then-reset-pair")
 		}
 	}
+	peek := t.Bool(1, 3)
 	p := drv.New(typ)
 	model := initialModel(typ)
 	if name0, wv, gv := ref.FirstDiff(model.Canon(), drv.Observe(p).Canon()); name0 != "" {
@@ -344,6 +345,12 @@ func runC12(c *sim.Ctx) *sim.Violation {
 		}
 		drv.ApplyModel(model, o)
 		c.Ev("op", int64(i), int64(len(o.Kind)), int64(o.ID))
+		if peek && t.Bool(1, 3) {
+			// a read-only operation between two setter calls (String, WriteTo,
+			// Dump, WellFormed, accessors): must not disturb anything
+			drv.ReadOnly(p, t.Int(5))
+			c.Count("probe.read-only-op-between-setters")
+		}
 		var got string
 		if pi := sim.Guard(func() { got = drv.Observe(p).Canon() }); pi != nil {
 			return sim.V("C12/"+name+"/"+o.Kind+"/accessor-panic:"+pi.Site, "after step %d %s an accessor panicked: %s", i, o, pi.Value)
